@@ -479,13 +479,15 @@ pub const BAD_PORT: [&str; 30] = [
     "+80", "-1", "080", "00", "", "65536", "99999", "100000", "1e3", "0x50", "８０", "٨٠", "80\n", "\n80", "80\u{0}", "4294967376",
     "18446744073709551696", "65535.0", "-0", "+0", "+", "-", "0x0", "1_000", "0_0", "01", "000", "+65535", "65535\t", "six",
 ];
-pub const BAD_V4: [&str; 28] = [
+pub const BAD_V4: [&str; 34] = [
+    "::ffff:1.2.3.4", "::ffff:102:304", "::FFFF:10.0.0.1", "::1.2.3.4", "0:0:0:0:0:ffff:1.2.3.4", "64:ff9b::1.2.3.4",
     "[1.2.3.4]", "1.2.3.4%1",
     "256.1.1.1", "1.2.3", "1.2.3.4.5", "01.2.3.4", "1.2.3.04", "1..3.4", "1.2.3.", ".1.2.3", "1.2.3.4x", "a.b.c.d", "::1", "1.2.3.-4", "+1.2.3.4",
     "1.2.3.4/8", "0x1.2.3.4", "1.2.3.256", "1.2.3.4:80", "999.999.999.999", "1,2,3,4", "١.٢.٣.٤", "", "1.2.3.0004", "127.1", "2130706433", "1.2.3.4\n",
     "1.2.3.4\u{0}",
 ];
-pub const BAD_V6: [&str; 32] = [
+pub const BAD_V6: [&str; 40] = [
+    "fe80::1%eth0", "fe80::1%1", "fe80::%1", "fe80::abcd%wlan0", "FE80::1%lo", "ff02::1%2", "fe80::1%25eth0", "::1%0",
     "1:2:3:4:5:6:7:8:9", "1::2::3", "fffff::", "1:2:3:4:5:6:7", ":1:2:3:4:5:6:7", "1:2:3:4:5:6:7:", ":::", "1:::2", "g::1", "1.2.3.4", "::1.2.3",
     "::1.2.3.256", "::01.2.3.4", "1:2:3:4:5:6:7:1.2.3.4", "[::1]", "::1%eth0", "::1/128", "::ffff:1.2.3.4.5", "1.2.3.4::", "12345::", "", "::-1", "+::1",
     "0x1::", "1:2:3:4:5:6:7::8", "::1\n", "::\u{0}", "１::", ":", "1:2:3:4:5:6:1.2.3.4:8", "::1.2.3.4:5", "1:2:3:4:5:6:7:8::",
@@ -889,6 +891,27 @@ pub fn random_input(rng: &mut Rng) -> Vec<u8> {
 
 /// G-len: inputs whose length sits around the 107-byte limit.
 pub fn near_limit(rng: &mut Rng) -> Vec<u8> {
+    if rng.chance(1, 10) {
+        // a zeroed receive buffer of 106..110 bytes holding an unfinished (or finished) line: the
+        // line, then NUL / space / 0xFF padding and no CR
+        let mut v = match rng.below(4) {
+            0 => b"PROX".to_vec(),
+            1 => {
+                let b = valid_ascii_body(rng);
+                let cut = rng.below(b.len() as u64 + 1) as usize;
+                b.as_bytes()[..cut].to_vec()
+            }
+            2 => valid_ascii_body(rng).into_bytes(),
+            _ => b"PROXY UNKNOWN".to_vec(),
+        };
+        let total = rng.range(105, 110) as usize;
+        let pad = *rng.pick(&[0u8, 0, 0, b' ', 0xFF]);
+        while v.len() < total {
+            v.push(pad);
+        }
+        v.truncate(total);
+        return v;
+    }
     let fill = |rng: &mut Rng, head: &str, total: usize| -> Vec<u8> {
         let mut v = head.as_bytes().to_vec();
         let c = *rng.pick(&[b'x', b' ', b'0', b':', b'\n', 0u8]);
